@@ -133,4 +133,48 @@ theorem compress_decodes (data : List UInt8) (o : Oracle) (hO : OracleOK data o)
     | search2 _ _ _ _ _ => cases h
     | search3 _ _ _ _ _ _ _ => cases h
 
+/-! ## with a history: streaming and dictionary compression at the hash-chain levels
+
+`LZ4_compress_HC_continue` / a loaded or attached dictionary: the parser is the same, positions are taken in `hist ++ block` (`hist` = what the decoder
+has: previous blocks, the dictionary), the block starts at `hist.length`; where a match really lies in memory (prefix, external dictionary, dictionary
+context) is the finders' business — the oracle only says "`len` bytes at `p` equal the bytes `off` earlier in `hist ++ block`". -/
+
+/-- the block written for `block` with `hist` in front of it -/
+def compressH (o : Oracle) (hist block : List UInt8) (fuel : Nat) : Option (List UInt8) :=
+  if block.length < 13 then some (serialize [] block) else
+  match run o (hist.length + block.length - 12) fuel (.main hist.length hist.length) with
+  | (.done a, es) => some (serialize (es.map (toSeq (hist ++ block))) ((hist ++ block).drop a))
+  | _ => none
+
+theorem decode_literals_any_hist (hist l : List UInt8) : decode hist (serialize [] l) = some l :=
+  roundtrip hist [] l l (fun s hs => (List.not_mem_nil hs).elim) (by simp [ValidParse])
+
+/-- **streaming / dictionary compression at the hash-chain levels is lossless for every match finder that honours its contract**: the block decodes to
+    its source against the history -/
+theorem compressH_decodes (hist block : List UInt8) (o : Oracle) (hO : OracleOK (hist ++ block) o) (fuel : Nat) (blk : List UInt8)
+    (h : compressH o hist block fuel = some blk) : decode hist blk = some block := by
+  unfold compressH at h
+  split at h
+  · simp only [Option.some.injEq] at h
+    subst h
+    exact decode_literals_any_hist hist block
+  · have hc := run_chain o (hist.length + block.length - 12) fuel (.main hist.length hist.length)
+    have hok := (run_ok (hist ++ block) o hO (hist.length + block.length - 12) fuel (.main hist.length hist.length) (Nat.le_refl _)).2
+    generalize run o (hist.length + block.length - 12) fuel (.main hist.length hist.length) = r at h hc hok
+    obtain ⟨pc, es⟩ := r
+    cases pc with
+    | done a =>
+      simp only [Option.some.injEq] at h
+      subst h
+      dsimp only [anchorOf] at hc
+      have hv := chain_valid (hist ++ block) es hist.length a hc hok (by rw [List.length_append]; omega)
+      rw [List.take_left' rfl] at hv
+      exact roundtrip hist _ _ block (fun s hs => by
+        obtain ⟨e, he, rfl⟩ := List.mem_map.mp hs
+        obtain ⟨_, h2, h3, h4, _⟩ := hok e he
+        exact ⟨h2, by show e.off < 65536; omega⟩) hv
+    | main _ _ => cases h
+    | search2 _ _ _ _ _ => cases h
+    | search3 _ _ _ _ _ _ _ => cases h
+
 end HC
